@@ -274,7 +274,6 @@ class JsonSchemaParser:
             if additional_properties is False:
                 # no declared property and no additional one: only the empty object
                 constraints.pop('max_length', None)
-                constraints.pop('min_length', None)
                 constraints.update(length=0)
             elif isinstance(additional_properties, dict):
                 value_type = self.parse_type(additional_properties)
